@@ -94,6 +94,10 @@ class BoxV:
     def deref_ref(self):
         return Ref(self.cell)
 
+    def proj_field(self, a):
+        # Box<T> is dereferenced in MIR through its internals ((box.0: Unique).0: NonNull).pointer: all of them denote the box
+        return self
+
     def __repr__(self):
         return f'Arc({self.cell.v!r})'
 
